@@ -235,8 +235,11 @@ def _worker(args):
     out = []
     for j in jobs:
         rng = random.Random(j["rseed"])
-        out.append(run_calls(j["name"], j["bounds"], j["prec"], j["rem"], j["bs"], j["seed"], j["ncalls"], rng,
-                             extreme=j.get("extreme", False), watch=j.get("watch", False), force_typed=j.get("typed")))
+        evs = run_calls(j["name"], j["bounds"], j["prec"], j["rem"], j["bs"], j["seed"], j["ncalls"], rng,
+                        extreme=j.get("extreme", False), watch=j.get("watch", False), force_typed=j.get("typed"))
+        for e in evs:
+            e["job"] = dict(j)          # (what a replay needs to run exactly this job again)
+        out.append(evs)
     common.shutdown_loky()
     return out
 
